@@ -90,7 +90,7 @@ theorem bodyRel_noteRead (s : St) (a : Bool) (r : RefId) : BodyRel s (s.noteRead
   · exact BodyRel.refl s
 
 def CalleeFrame (f : Node → St → Res × St) : Prop :=
-  ∀ n s, RefsBelow s → FrameSame s (f n s).2
+  ∀ n s, RefsBelow s → BodyRel s (f n s).2
 
 theorem runBody_frame (env : Env) (f : Node → St → Res × St) (hf : CalleeFrame f) :
     ∀ (p : Prog) (s : St), RefsBelow s → BodyRel s (runBody env f p s).2 := by
@@ -107,7 +107,7 @@ theorem runBody_frame (env : Env) (f : Node → St → Res × St) (hf : CalleeFr
   | call n k ih =>
     intro s hr
     simp only [runBody]
-    have h1 := BodyRel.of_frameSame (hf n s hr)
+    have h1 := hf n s hr
     exact h1.trans (ih _ _ (h1.refsBelow hr))
 
 theorem evalNode_frame (env : Env) (ef : Node → St → Res × St) (hef : CalleeFrame ef) :
@@ -116,7 +116,7 @@ theorem evalNode_frame (env : Env) (ef : Node → St → Res × St) (hef : Calle
   unfold evalNode
   split
   · split
-    · exact frameSame_hitEdge s n
+    · exact BodyRel.of_frameSame (frameSame_hitEdge s n)
     · exact hef n s hr
   · exact hef n s hr
 
@@ -149,10 +149,23 @@ theorem takeRefs_append (rs new : List (Nat × RefId)) (L : Nat)
     simp only [beq_eq_false_iff_ne, ne_eq]; omega)]
   simp
 
+theorem takeRefs_append_fst_levels (rs new : List (Nat × RefId)) (L : Nat)
+    (h1 : ∀ e ∈ rs, e.1 < L) (h2 : ∀ e ∈ new, e.1 = L) :
+    (takeRefs (rs ++ new) L).1.length = new.length := by
+  unfold takeRefs
+  simp only [List.reverse_append]
+  rw [takeWhile_append_all _ _ _ (by
+    intro x hx; simp only [List.mem_reverse] at hx; simp [h2 x hx])]
+  rw [takeWhile_none _ rs.reverse (by
+    intro x hx; simp only [List.mem_reverse] at hx
+    have := h1 x hx
+    simp only [beq_eq_false_iff_ne, ne_eq]; omega)]
+  simp
+
 theorem runN_frame (env : Env) : ∀ d, CalleeFrame (runN env d) := by
   intro d
   induction d with
-  | zero => intro n s _; exact ⟨rfl, rfl, rfl⟩
+  | zero => intro n s _; exact BodyRel.of_frameSame ⟨rfl, rfl, rfl⟩
   | succ d ih =>
     intro n s hr
     have hpushBelow : RefsBelow (s.push env n) := by
@@ -177,23 +190,36 @@ theorem runN_frame (env : Env) : ∀ d, CalleeFrame (runN env d) := by
     have hdrain : (takeRefs s1.refstack s.stack.length).2 = s.refstack := by
       rw [hrefs]; exact takeRefs_append _ _ _ hr hlev'
     have hrollback : ∀ s1' : St, s1'.stack = s1.stack → s1'.idx = s1.idx → s1'.refstack = s1.refstack →
-        FrameSame s (s1'.rollback n) := by
+        BodyRel s (s1'.rollback n) := by
       intro s1' e1 e2 e3
+      refine BodyRel.of_frameSame ?_
       unfold St.rollback St.dropFrame St.removeNode
       simp only [e1, e2, e3, hstack, hidx, List.dropLast_concat]
       exact ⟨rfl, rfl, by simpa [List.dropLast_concat] using hdrain⟩
     have hpop : ∀ s1' : St, s1'.stack = s1.stack → s1'.idx = s1.idx → s1'.refstack = s1.refstack →
-        FrameSame s (s1'.pop env n) := by
+        BodyRel s (s1'.pop env n) := by
       intro s1' e1 e2 e3
       unfold St.pop
       have hd : FrameSame { s with refstack := s1.refstack } s1'.dropFrame := by
         unfold St.dropFrame
         exact ⟨by simp [e1, hstack], by simp [e2, hidx], by simp [e3]⟩
       have hpe := hd.trans (frameSame_popEdge env s1'.dropFrame n)
+      have hds := drainSame env (s1'.dropFrame.popEdge env n) n
+      refine ⟨hds.stack.trans hpe.stack, hds.idx.trans hpe.idx, ?_⟩
       unfold St.drainRefs
-      refine ⟨hpe.stack, hpe.idx, ?_⟩
-      simp only [hpe.stack, hpe.refstack]
-      exact hdrain
+      have hst : (s1'.dropFrame.popEdge env n).stack = s.stack := hpe.stack
+      have hrf : (s1'.dropFrame.popEdge env n).refstack = s1.refstack := hpe.refstack
+      split
+      · exact ⟨[], by simp [hst, hrf, hdrain], by simp⟩
+      · split
+        · rename_i hpos
+          refine ⟨_, by simp only [hst, hrf, hdrain]; rfl, ?_⟩
+          intro e he
+          simp only [List.mem_map] at he
+          obtain ⟨r', _, rfl⟩ := he
+          simp only [hst] at hpos ⊢
+          omega
+        · exact ⟨[], by simp [hst, hrf, hdrain], by simp⟩
     cases r with
     | err e => exact hrollback s1 rfl rfl rfl
     | ok v =>
@@ -219,8 +245,15 @@ theorem evalTop_quiescent (env : Env) (n : Node) (s : St) (hq : Quiescent s) :
   · have hf := runN_frame env (env.maxdepth + 1) n s (by intro e he; rw [hq.refstack] at he; simp at he)
     generalize runN env (env.maxdepth + 1) n s = p at hf
     obtain ⟨r, s1⟩ := p
+    have hrefs : s1.refstack = [] := by
+      obtain ⟨new, hnew, hlev⟩ := hf.refs
+      simp only [] at hnew hlev
+      rw [hnew, hq.refstack, List.nil_append]
+      cases new with
+      | nil => rfl
+      | cons e _ => have := hlev e (by simp); rw [hq.stack] at this; simp at this
     cases r with
-    | ok v => exact ⟨hf.stack.trans hq.stack, hf.idx.trans hq.idx, hf.refstack.trans hq.refstack, rfl⟩
-    | err e => exact ⟨hf.stack.trans hq.stack, hf.idx.trans hq.idx, hf.refstack.trans hq.refstack, rfl⟩
+    | ok v => exact ⟨hf.stack.trans hq.stack, hf.idx.trans hq.idx, hrefs, rfl⟩
+    | err e => exact ⟨hf.stack.trans hq.stack, hf.idx.trans hq.idx, hrefs, rfl⟩
 
 end MxModel.Exec
